@@ -406,6 +406,65 @@ def rule_S1(prog, fixture=False):
                     % (p["n"], r.line, w.text(), w.line), func=f.name, extra=extra)
         else:
             res.add(key, DISCHARGED, where, what, "every read of '%s' precedes the first write to the left operand" % p["n"], func=f.name, extra=extra)
+    # S1b: an array operand taken by reference is not read after the left operand's storage was re-allocated (a |= a)
+    REALLOC = {"resize", "insert", "assign", "reserve", "push_back", "emplace_back", "clear", "shrink_to_fit", "erase", "swap"}
+    n_arr = 0
+    for f in sorted(prog.functions.values(), key=lambda f: (f.file, f.line, f.name)):
+        m = re.match(r"^dsplib::base_array<(.*)>$", f.cls or "")
+        if not m or f.get("implicit") or f.kind != "method" or f.get("const"):
+            continue
+        elem = m.group(1)
+        for p in f.params:
+            pt = (p.get("t") or "").replace("const ", "").replace("&", "").strip()
+            if not p.get("ref") or pt != "dsplib::base_array<%s>" % elem:
+                continue
+            f.blocks
+            reallocs, reads = [], []
+            for n in f.walk():
+                if n.k == "CXXMemberCallExpr" and n.callee and n.call_object() is not None:
+                    o = n.call_object().strip_all()
+                    nm = (n.callee.get("qn") or "").rsplit("::", 1)[-1]
+                    if o.k == "MemberExpr" and o.decl and o.decl.get("k") == "field" and (not o.c or o.c[0].strip_all().k == "CXXThisExpr") \
+                            and nm in REALLOC and "std::vector" in (n.callee.get("cls") or ""):
+                        reallocs.append(n)
+                if n.k == "DeclRefExpr" and n.decl and n.decl.get("k") == "parm" and n.decl.get("n") == p["n"]:
+                    reads.append(n)
+            if not reallocs:
+                continue
+            n_arr += 1
+            key = "S1:" + fkey(f) + ":realloc"
+            where = "%s:%d" % (prog.rel(f.file), f.line)
+            what = "%s(%s)" % (f.short, p.get("t", "").replace("dsplib::", ""))
+            extra = {"props": ["C03"]}
+            guarded = any(("this" in fa.cond.text() and p["n"] in fa.cond.text()) for r in reads for fa in f.facts_at(r) if not fa.belief)
+            bad = None
+            for w in reallocs:
+                wl = f.block_of(w)
+                if wl is None:
+                    continue
+                after = set()
+                for s_ in f.blocks[wl[0]].succs:
+                    if s_ is not None:
+                        after |= f.reachable(s_)
+                for r in reads:
+                    if any(a.id == w.id for a in r.ancestors()):
+                        continue        # an argument of the re-allocating call itself: evaluated before it runs
+                    rl = f.block_of(r)
+                    if rl is not None and ((rl[0] == wl[0] and rl[1] > wl[1]) or rl[0] in after):
+                        bad = (w, r)
+                        break
+                if bad:
+                    break
+            if bad and not guarded:
+                w, r = bad
+                res.add(key, VIOLATED, "%s:%d" % (prog.rel(f.file), r.line), what,
+                        "'%s' is read (line %d) after %s has re-allocated the left operand's storage (line %d): when the operand is the "
+                        "left operand itself (a |= a) its iterators and size are those of the *resized* array and the copy runs past "
+                        "the buffer" % (p["n"], r.line, w.text()[:50], w.line), func=f.name, extra=extra)
+            else:
+                res.add(key, DISCHARGED, where, what, "the operand is only read as an argument of the re-allocating call, before it runs" if not guarded
+                        else "guarded by an identity test", func=f.name, extra=extra)
+    res.stats["array_operators_that_reallocate"] = n_arr
     res.stats["compound_scalar_operators"] = n_ops
     if n_ops == 0 and not fixture:
         res.broken.append("anchor vanished: no compound scalar operator of base_array / cmplx_t instantiated")
